@@ -1,5 +1,9 @@
 (* Pinned statements for C11: compiled on every check run. A statement weakened in Props/ fails here. *)
 From Coq Require Import List Arith Permutation String.
+From TS Require Import Model.Unicode Model.Syntax Model.Parse Model.Collect Model.Lang.Common Model.Lang.TypeScript Model.Lang.Kotlin
+                       Model.Lang.Swift Model.Lang.Scala Model.Lang.Go Model.Lang.Python Model.MultiFile Spec.C14Spec.
+From TS Require Model.Writer.
+From TS Require Proofs.C02_Witness Proofs.C14 Proofs.C14Front Proofs.C14Main Proofs.C14Witness Proofs.C06MultiWitness Proofs.C11Multi Proofs.C11MultiWitness.
 From TS Require Import Model.Str Model.Outcome Model.Types Model.TopsortAlgo Model.Topsort Spec.C11Spec.
 From TS Require Proofs.ToposortPerm Proofs.SortByIndices Proofs.C11 Proofs.C11Link.
 Import ListNotations.
@@ -116,3 +120,153 @@ Goal Proofs.C11Link.c11_refutes "C11-renamed"
                  sfields := []; scomments := []; sdecs := []; sredacted := false |}].
 Proof. exact Props.C11.C11_renamed_refuted. Qed.
 Print Assumptions Props.C11.C11_renamed_refuted.
+Goal forall (pd : parsed) (out : list ritem),
+    Proofs.C11Multi.sorted_file pd out <->
+    topsort (items_of pd) = Ok out /\ Permutation out (items_of pd) /\
+    (known_C11 (items_of pd) = None -> acyclic (items_of pd) = true -> topo_ok out = true).
+Proof. exact Props.C11.C11_multi_sorted_file_meaning. Qed.
+Print Assumptions Props.C11.C11_multi_sorted_file_meaning.
+Goal forall (pd : parsed),
+    (forall out, topsort (items_of pd) = Ok out -> Proofs.C11Multi.sorted_file pd out) /\
+    (known_C11 (items_of pd) = None -> exists out, Proofs.C11Multi.sorted_file pd out).
+Proof. exact Props.C11.C11_multi_topsort_gives_sorted_file. Qed.
+Print Assumptions Props.C11.C11_multi_topsort_gives_sorted_file.
+Goal forall (St A : Type) (f : A -> M St str) (items : list A) (st : St) (parts : list str) (st' : St),
+    (Proofs.C11Multi.writes_seq f items st parts st' <-> mmapM f items st = Ok (parts, st')) /\
+    (Proofs.C11Multi.writes_seq f items st parts st' -> length parts = length items).
+Proof. exact Props.C11.C11_multi_writes_seq_meaning. Qed.
+Print Assumptions Props.C11.C11_multi_writes_seq_meaning.
+Goal forall (uc : unicode) (cfg : ts_config) (st : ts_state) (im : scoped) (pd : parsed) (text : str) (st' : ts_state),
+    ts_generate_multi uc cfg st im pd = Ok (text, st') <->
+    exists out parts,
+      Proofs.C11Multi.sorted_file pd out /\ Proofs.C11Multi.writes_seq (ts_write_item uc cfg) out st parts st' /\
+      text = ts_begin_file cfg ++ ts_write_imports im ++ List.concat parts ++ ts_end_file st'.
+Proof. exact Props.C11.C11_multi_ts_definitions_permutation. Qed.
+Print Assumptions Props.C11.C11_multi_ts_definitions_permutation.
+Goal forall (uc : unicode) (cfg : kt_config) (c : str) (im : scoped) (pd : parsed) (text : str),
+    kt_generate_multi uc cfg c im pd = Ok text <->
+    exists out parts,
+      Proofs.C11Multi.sorted_file pd out /\ Proofs.C11Multi.writes_list (kt_write_item cfg) out parts /\
+      text = kt_begin_file_multi cfg c ++ kt_write_imports cfg im ++ List.concat parts.
+Proof. exact Props.C11.C11_multi_kt_definitions_permutation. Qed.
+Print Assumptions Props.C11.C11_multi_kt_definitions_permutation.
+Goal forall (uc : unicode) (cfg : sw_config) (st : sw_state) (pd : parsed) (text : str) (st' : sw_state),
+    sw_generate_multi uc cfg st pd = Ok (text, st') <->
+    exists out parts,
+      Proofs.C11Multi.sorted_file pd out /\ Proofs.C11Multi.writes_seq (sw_write_item uc cfg) out st parts st' /\
+      text = sw_begin_file cfg ++ List.concat parts.
+Proof. exact Props.C11.C11_multi_sw_definitions_permutation. Qed.
+Print Assumptions Props.C11.C11_multi_sw_definitions_permutation.
+Goal forall (uc : unicode) (cfg : go_config) (st : go_state) (pd : parsed) (text : str) (st' : go_state),
+    go_generate_multi uc cfg st pd = Ok (text, st') <->
+    exists out header st1 parts,
+      Proofs.C11Multi.sorted_file pd out /\ go_begin_file cfg st = Ok (header, st1) /\
+      Proofs.C11Multi.writes_seq (go_write_item uc cfg (go_types_mapping_to_struct out)) out st1 parts st' /\
+      text = header ++ go_write_all_imports st' ++ List.concat parts.
+Proof. exact Props.C11.C11_multi_go_definitions_permutation. Qed.
+Print Assumptions Props.C11.C11_multi_go_definitions_permutation.
+Goal forall (uc : unicode) (cfg : py_config) (st : py_state) (pd : parsed) (text : str) (st' : py_state),
+    py_generate_multi uc cfg st pd = Ok (text, st') <->
+    exists out parts,
+      Proofs.C11Multi.sorted_file pd out /\ Proofs.C11Multi.writes_seq (py_write_item uc cfg) out st parts st' /\
+      text = py_begin_file cfg ++ py_write_all_imports st' ++ py_write_custom_translations st' ++ List.concat parts.
+Proof. exact Props.C11.C11_multi_py_definitions_permutation. Qed.
+Print Assumptions Props.C11.C11_multi_py_definitions_permutation.
+Goal forall (uc : unicode) (cfg : sc_config) (pd : parsed),
+    (forall text,
+      sc_generate uc cfg pd = Ok text <->
+      exists head als sts ens,
+        sc_begin_file cfg = Ok head /\
+        Proofs.C11Multi.writes_list (sc_write_item cfg) (map ItAlias (p_aliases pd)) als /\
+        Proofs.C11Multi.writes_list (sc_write_item cfg) (map ItStruct (p_structs pd)) sts /\
+        Proofs.C11Multi.writes_list (sc_write_item cfg) (map ItEnum (p_enums pd)) ens /\
+        text = head ++
+               (if sc_unsigned_integer_used pd || negb (sc_is_empty (p_aliases pd))
+                then sc_begin_package_object cfg ++
+                     (if sc_unsigned_integer_used pd then sc_render_decl sc_unsigned_aliases else []) ++
+                     List.concat als ++ sc_end_package_object cfg
+                else []) ++
+               (if negb (sc_is_empty (p_structs pd)) || negb (sc_is_empty (p_enums pd))
+                then sc_begin_package cfg ++ List.concat sts ++ List.concat ens ++ sc_end_package cfg
+                else [])) /\
+    items_of pd = Proofs.C11Multi.sc_written_items pd ++ map ItConst (p_consts pd) /\
+    (p_consts pd = [] -> Permutation (Proofs.C11Multi.sc_written_items pd) (items_of pd)).
+Proof. exact Props.C11.C11_multi_sc_definitions_permutation. Qed.
+Print Assumptions Props.C11.C11_multi_sc_definitions_permutation.
+Goal forall uc : unicode,
+  (forall cfg, Proofs.C11Multi.sorts_items (fun st (_ : str) im pd => ts_generate_multi uc cfg st im pd)) /\
+  (forall cfg, Proofs.C11Multi.sorts_items (fun (st : unit) c im pd => match kt_generate_multi uc cfg c im pd with
+                                                       | Ok text => Ok (text, st) | Err e => Err e | Panic s => Panic s end)) /\
+  (forall cfg, Proofs.C11Multi.sorts_items (fun st (_ : str) (_ : scoped) pd => sw_generate_multi uc cfg st pd)) /\
+  (forall cfg, Proofs.C11Multi.sorts_items (fun st (_ : str) (_ : scoped) pd => go_generate_multi uc cfg st pd)) /\
+  (forall cfg, Proofs.C11Multi.sorts_items (fun st (_ : str) (_ : scoped) pd => py_generate_multi uc cfg st pd)).
+Proof. exact Props.C11.C11_multi_generators_sort. Qed.
+Print Assumptions Props.C11.C11_multi_generators_sort.
+Goal forall (uc : unicode) (T ign : list str) (ho_file ho_crate : list imported -> list imported)
+         (hc : crate_types -> crate_types) (l : lang) (ws : list ws_entry) (arrivals : list (str * parsed)),
+    parse_workspace uc T ign ho_file ws = Ok arrivals ->
+    let plan := multi_plan l hc (multi_crates ho_crate arrivals) in
+    NoDup (map op_crate plan) /\
+    (forall p out, In p plan -> topsort (items_of (op_data p)) = Ok out ->
+       Proofs.C11Multi.sorted_file (op_data p) out /\
+       Permutation (map c14_decl out) (map c14_decl (crate_items (Proofs.C14Main.c14_infos uc T ws) (op_crate p)))) /\
+    (forall singles outs, parse_workspace_single uc T (crate_entries ws) = Ok singles ->
+       Forall2 (fun p out => topsort (items_of (op_data p)) = Ok out) plan outs ->
+       Permutation (map c14_decl (List.concat outs)) (map c14_decl (items_of (single_file_input singles)))) /\
+    (forall (St : Type) (gen : St -> str -> scoped -> parsed -> outcome (str * St)) (st : St) files fin,
+       generate_crates gen st plan = (files, fin) ->
+       map fst files = firstn (length files) (map op_file plan) /\
+       (exists states : list St,
+          nth_error states 0 = Some st /\
+          (forall i fname text, nth_error files i = Some (fname, Writer.Generated text) ->
+             exists p st_i st_i',
+               nth_error plan i = Some p /\ fname = op_file p /\
+               nth_error states i = Some st_i /\ nth_error states (S i) = Some st_i' /\
+               gen st_i (op_crate p) (op_imports p) (op_data p) = Ok (text, st_i')) /\
+          (forall i fname, nth_error files i = Some (fname, Writer.GenFailed) ->
+             S i = length files /\ forall st', fin <> Ok st') /\
+          (forall st', fin = Ok st' -> length files = length plan /\ nth_error states (length plan) = Some st')) /\
+       (Proofs.C11Multi.sorts_items gen -> forall st', fin = Ok st' ->
+          exists outs, Forall2 (fun p out => Proofs.C11Multi.sorted_file (op_data p) out) plan outs)).
+Proof. exact Props.C11.C11_multi_workspace. Qed.
+Print Assumptions Props.C11.C11_multi_workspace.
+Goal exists arrivals pd_alpha,
+    parse_workspace uc_exec [] [] (fun l => l) Proofs.C11MultiWitness.ws_order = Ok arrivals /\
+    Proofs.C14.crates_get (multi_crates Proofs.C14Witness.idl arrivals) (lit "alpha") = Some pd_alpha /\
+    Proofs.C11MultiWitness.x_names (items_of pd_alpha) = [lit "Ids"; lit "Item"; lit "Kind"] /\
+    known_C11 (items_of pd_alpha) = None /\ acyclic (items_of pd_alpha) = true /\ topo_ok (items_of pd_alpha) = false /\
+    generate_crates Proofs.C06MultiWitness.m_ts_gen [] (multi_plan TypeScript Proofs.C14Witness.idl (multi_crates Proofs.C14Witness.idl arrivals)) =
+      ([(lit "alpha.ts", Writer.Generated Proofs.C11MultiWitness.x_alpha_ts);
+        (lit "beta.ts", Writer.Generated Proofs.C11MultiWitness.x_beta_ts)], Ok []) /\
+    Proofs.C11MultiWitness.ts_unsorted_multi uc_exec Proofs.C06MultiWitness.m_ts_cfg [] [] pd_alpha =
+      Ok (Proofs.C11MultiWitness.x_alpha_ts_unsorted, []) /\
+    Proofs.C11MultiWitness.x_alpha_ts_unsorted <> Proofs.C11MultiWitness.x_alpha_ts.
+Proof. exact Props.C11.C11_multi_ts_sort_regression. Qed.
+Print Assumptions Props.C11.C11_multi_ts_sort_regression.
+Goal exists arrivals singles,
+    parse_workspace uc_exec [] [] (fun l => l) Proofs.C11MultiWitness.ws_order = Ok arrivals /\
+    parse_workspace_single uc_exec [] (crate_entries Proofs.C11MultiWitness.ws_order) = Ok singles /\
+    Proofs.C14Front.oracle_ok (@Proofs.C14Witness.idl imported) /\ Proofs.C14Front.oracle_ok (@Proofs.C14Witness.idl (str * list str)) /\
+    map op_crate (multi_plan TypeScript Proofs.C14Witness.idl (multi_crates Proofs.C14Witness.idl arrivals)) = [lit "alpha"; lit "beta"] /\
+    Proofs.C11MultiWitness.x_sorted_names (multi_plan TypeScript Proofs.C14Witness.idl (multi_crates Proofs.C14Witness.idl arrivals)) =
+      [Some [lit "Kind"; lit "Item"; lit "Ids"]; Some [lit "Holder"]] /\
+    Proofs.C11MultiWitness.x_names (items_of (single_file_input singles)) = [lit "Ids"; lit "Holder"; lit "Item"; lit "Kind"] /\
+    Proofs.C11MultiWitness.x_ok (generate_crates Proofs.C06MultiWitness.m_ts_gen [] (multi_plan TypeScript Proofs.C14Witness.idl (multi_crates Proofs.C14Witness.idl arrivals))) = ([lit "alpha.ts"; lit "beta.ts"], true) /\
+    Proofs.C11MultiWitness.x_ok (generate_crates Proofs.C11MultiWitness.x_kt_gen tt (multi_plan Kotlin Proofs.C14Witness.idl (multi_crates Proofs.C14Witness.idl arrivals))) = ([lit "alpha.kt"; lit "beta.kt"], true) /\
+    Proofs.C11MultiWitness.x_ok (generate_crates Proofs.C11MultiWitness.x_sw_gen false (multi_plan Swift Proofs.C14Witness.idl (multi_crates Proofs.C14Witness.idl arrivals))) = ([lit "Alpha.swift"; lit "Beta.swift"], true) /\
+    Proofs.C11MultiWitness.x_ok (generate_crates Proofs.C11MultiWitness.x_go_gen [] (multi_plan Go Proofs.C14Witness.idl (multi_crates Proofs.C14Witness.idl arrivals))) = ([lit "alpha.go"; lit "beta.go"], true) /\
+    Proofs.C11MultiWitness.x_ok (generate_crates Proofs.C11MultiWitness.x_py_gen py_empty_state (multi_plan Python Proofs.C14Witness.idl (multi_crates Proofs.C14Witness.idl arrivals))) = ([lit "alpha.py"; lit "beta.py"], true) /\
+    Proofs.C11MultiWitness.x_ok (generate_crates Proofs.C11MultiWitness.x_sc_gen tt (multi_plan Scala Proofs.C14Witness.idl (multi_crates Proofs.C14Witness.idl arrivals))) = ([lit "alpha.scala"; lit "beta.scala"], true).
+Proof. exact Props.C11.C11_multi_workspace_nonvacuous. Qed.
+Print Assumptions Props.C11.C11_multi_workspace_nonvacuous.
+Goal exists arrivals pd_alpha,
+    parse_workspace uc_exec [] [] (fun l => l) Proofs.C11MultiWitness.ws_order = Ok arrivals /\
+    Proofs.C14.crates_get (multi_crates Proofs.C14Witness.idl arrivals) (lit "alpha") = Some pd_alpha /\
+    Proofs.C11MultiWitness.x_names (Proofs.C11Multi.sc_written_items pd_alpha) = [lit "Ids"; lit "Item"; lit "Kind"] /\
+    sc_generate uc_exec Proofs.C02_Witness.c02_w_sc_cfg pd_alpha =
+      Ok (Proofs.C11MultiWitness.ln "package a" ++ nl ++ Proofs.C11MultiWitness.ln "package object p {" ++ nl ++
+          Proofs.C11MultiWitness.x_sc_ids ++ Proofs.C11MultiWitness.ln "}" ++
+          Proofs.C11MultiWitness.ln "package p {" ++ nl ++ Proofs.C11MultiWitness.x_sc_item ++ Proofs.C11MultiWitness.x_sc_kind ++
+          Proofs.C11MultiWitness.ln "}").
+Proof. exact Props.C11.C11_multi_scala_list_order_example. Qed.
+Print Assumptions Props.C11.C11_multi_scala_list_order_example.
